@@ -4,6 +4,7 @@ execution against the TLA+ monitors (TraceCheck.tla) with TLC."""
 from __future__ import annotations
 
 import copy
+import random
 import os
 import sys
 
@@ -54,6 +55,10 @@ def gen_cases(seed: int, n: int, *, nphases=4, watch_p=0.0, features=None, nwork
                 if srcs and g.rng.random() < 0.5:
                     p = g.rng.choice(srcs)
                     ph["during"] = [[g.rng.randrange(3, 70), ["set", p, g.rng.choice(proj["sources"][p])]]]
+                    # a third of them as a replacement that keeps size, mode and modification time
+                    # (decided by a generator of its own: the main random stream is left as it was)
+                    if random.Random(seed * 7919 + i).random() < 0.34:
+                        ph["during"][0][1][0] = "swap"
         cases.append({"tid": f"{prefix}{seed}-{i}", "project": proj, "phases": hist})
     return cases
 
